@@ -1,2 +1,64 @@
+"""Query-string parser qparse_queries() (harness/query.c): C16 round trip cases (cases) and C17 safety cases (c17_cases)."""
+from ..engine import Case
+
+FUNCS = ['qparse_queries', '_q_makeword', 'qstrtrim', 'qurl_decode', 'qurl_encode', '_q_x2c', 'qlisttbl', 'qlisttbl_putstr', 'qlisttbl_put', 'qlisttbl_free']
+
+
+def _qlen(p, l):
+    n = 3 * (l[0] + l[1]) + 1
+    if p > 1:
+        n += 2 + 3 * (l[2] + l[3])
+    return n
+
+
 def cases(tier):
-    return []
+    """C16: query string assembled from 1..2 (name, value) pairs, name/value lengths 0..2 (per-query constants), every byte symbolic non-NUL and
+    rendered by the real qurl_encode(); parsed entries == pairs in order, count exact."""
+    out = []
+    shapes = []
+    for a in range(3):
+        for b in range(3):
+            shapes.append((1, (a, b, 0, 0)))
+    for a in range(3):
+        for b in range(3):
+            for c in range(3):
+                for d in range(3):
+                    if tier == 'quick' and max(a, b, c, d) == 2 and (a, b, c, d) not in ((2, 2, 2, 2), (0, 2, 2, 0), (2, 0, 0, 2), (2, 1, 1, 2), (1, 2, 2, 1), (0, 0, 2, 2), (2, 2, 0, 0)):
+                        continue  # quick: every two-pair shape with lengths 0..1, a sample of the shapes with a 2-byte field
+                    shapes.append((2, (a, b, c, d)))
+    for p, l in shapes:
+        L = _qlen(p, l)
+        out.append(Case('c16.query.p%d.l%d%d%d%d' % ((p,) + l), 'query.c',
+                        {'VF_MODE': 0, 'VF_P': p, 'VF_NL0': l[0], 'VF_VL0': l[1], 'VF_NL1': l[2], 'VF_VL1': l[3]},
+                        unwind=L + 3, unwindset={'qparse_queries.0': p + 2}, checks='func', funcs=FUNCS, timeout=600, mem_gb=4, safety_owner='C11',
+                        desc='qparse_queries(enc(name)=enc(value)%s): name/value lengths %s, all bytes symbolic non-NUL, URL-encoded by qurl_encode; entries equal the pairs in order'
+                             % ('&enc(name2)=enc(value2)' if p > 1 else '', l[:2 * p])))
+    return out
+
+
+def c17_cases(tier):
+    """C17: qparse_queries on an arbitrary NUL-terminated string of n symbolic non-NUL bytes in an exactly sized heap buffer."""
+    out = []
+    maxn = 5 if tier == 'quick' else 7
+    for n in range(0, maxn + 1):
+        out.append(Case('c17.query.n%d' % n, 'query.c', {'VF_MODE': 1, 'VF_N': n}, unwind=n + 3, checks='safety', funcs=FUNCS,
+                        timeout=600 if tier == 'quick' else 1800, mem_gb=8, object_bits=11, safety_owner='C17', unwind_owner='C17',
+                        desc='qparse_queries(NULL, q, \'=\', \'&\', &count) on every NUL-terminated q of %d symbolic non-NUL bytes in an exactly sized heap buffer: terminates, no out-of-bounds access '
+                             '(parser allocations are exactly sized blocks), result table well-formed, everything released' % n))
+    return out
+
+
+def info(tier):
+    """texts for the meta() of C16 / C17 (bounds, stubs, what is outside)"""
+    q = tier == 'quick'
+    return {
+        'c16_bounds': 'query strings: 1 pair with name/value lengths 0..2 (all 9 shapes), 2 pairs with every length in 0..%s; lengths are per-query constants, all bytes symbolic non-NUL, each rendered by the real qurl_encode()'
+                      % ('1 plus 7 shapes with 2-byte fields' if q else '2 (all 81 shapes)'),
+        'c17_bounds': 'qparse_queries: every NUL-terminated query of length 0..%d (all bytes symbolic non-NUL) in an exactly sized heap buffer, separators "=" and "&"' % (5 if q else 7),
+        'outside': ['query strings with more than 2 pairs or fields longer than 2 bytes (C16) / longer than the bound (C17)',
+                    'names or values containing NUL; un-encoded separators inside names/values (the harness always encodes through qurl_encode)',
+                    'passing an existing table (tbl != NULL) or separators other than "=" and "&"'],
+        'stubs': ['qhashmurmur3_32 -> table of 8 solver-chosen values indexed by a checksum of the name (the parser only stores the hash)',
+                  'allocator shim stubs.h; variable-size requests inside the parser: C17 exact blocks of 1..n+1 bytes chosen by a case split in the shim, C16 blocks of the constant size len(query)+2; sizeof() requests exact'],
+        'assumptions': ['malloc does not fail (allocation failure is the subject of C15)',
+                        'names are trimmed by the parser before decoding; qurl_encode never emits a blank literally, so no restriction on blank-only names is needed']}
